@@ -13,12 +13,12 @@ def run(prog, rep):
         "offset-provenance (reaching-definition classification of the free-slot offset w.r.t. the shift loop)."
     )
     rep.extra["geometry"] = {"header_bytes": ct.HDR, "entry_bytes": ct.ENT, "slots_written_by_new": ct.NSLOTS}
-    M.slot_balance(ct, rep)
-    M.header_frame(ct, rep)
-    M.geometry_constants(ct, rep)
-    M.unused_size_zero(ct, rep)
-    M.offset_provenance(ct, rep)
-    M.repoint_later(ct, rep)
+    rep.attempt(lambda: M.slot_balance(ct, rep))
+    rep.attempt(lambda: M.header_frame(ct, rep))
+    rep.attempt(lambda: M.geometry_constants(ct, rep))
+    rep.attempt(lambda: M.unused_size_zero(ct, rep))
+    rep.attempt(lambda: M.offset_provenance(ct, rep))
+    rep.attempt(lambda: M.repoint_later(ct, rep))
     rep.not_decided += ["the global non-overlap invariant over concrete histories and sizes",
                         "foreign files that are already inconsistent"]
     rep.trusted += ["file objects: seek/write/truncate semantics of CPython binary files"]
